@@ -416,6 +416,12 @@ func (pnf *PrevNextFinder) getPageDiff(pageURL, linkHref string, skip int) (int,
 		}
 	}
 
+	// The first different character may be in the middle of the page number, e.g.
+	// "page=10" and "page=11", so step back to the first digit of that number.
+	for commonLen > skip && pageURL[commonLen-1] >= '0' && pageURL[commonLen-1] <= '9' {
+		commonLen--
+	}
+
 	var urlAsNumber int
 	if str := rxNumberAtStart.FindString(pageURL[commonLen:]); str != "" {
 		urlAsNumber, _ = strconv.Atoi(str)
